@@ -73,10 +73,10 @@ def configs(tier):
         nns = list(itertools.product(nonces, repeat=n))
         if n == 3:
             srvs = [(True, True, True), (False, False, False), (True, False, True)] if tier == 'quick' else srvs
-            nns = [(0, 0, 0), (7, 7, 9), (9, 7, 7), (7, 0, 9)] if tier == 'quick' else nns
+            nns = [(0, 0, 0), (7, 7, 9), (9, 7, 7), (7, 0, 9)] if tier == 'quick' else [(0, 0, 0), (7, 7, 7), (7, 7, 9), (9, 7, 7), (7, 9, 7), (7, 0, 9), (0, 7, 0), (9, 0, 7), (0, 0, 7)]
         for srv in srvs:
             for nn in nns:
-                for other in (([None, 0] if tier == 'quick' else [None] + list(range(n))) if n == 3 else [None]):
+                for other in (([None, 0] if tier == 'quick' else [None, 0, 2]) if n == 3 else [None]):
                     sessions = tuple((k + 1, (srv[k], nn[k], 'other' if other == k else 'peer')) for k in range(n))
                     out.append(sessions)
     return out
